@@ -286,6 +286,19 @@ func (d *Downloader) synchronise(id string, hash types.Hash, td uint64) error {
 	d.cancelCh = make(chan struct{})
 	d.cancelLock.Unlock()
 
+	// No matter how the cycle ends, the cancel channel can't be left open: a delivery which arrived after the
+	// cycle stopped reading (hashCh and blockCh hold one pack) would wait for it forever
+	defer func() {
+		d.cancelLock.Lock()
+		select {
+		case <-d.cancelCh:
+			// Channel was already closed
+		default:
+			close(d.cancelCh)
+		}
+		d.cancelLock.Unlock()
+	}()
+
 	// Retrieve the origin peer and initiate the downloading process
 	p := d.peers.Peer(id)
 	if p == nil {
